@@ -223,6 +223,78 @@ func (rc *runCtx) translateAll(only func(short string) bool) ([]*Obligation, []*
 		}
 		obls = append(obls, &Obligation{Name: short + "/writers[" + ws.Field + "]", Fn: short + ".writers", Kind: "scan", Goal: goal, Src: src, Ctx: tr})
 	}
+	// interference model (rely declarations): the variable cells of a goroutine are assumed not to be written
+	// by other goroutines; scan: no closure that can run on another goroutine stores to a captured variable
+	relyPkgs := map[string]bool{}
+	for _, m := range w.C.Relies {
+		relyPkgs[m.Pkg] = true
+	}
+	var rpk []string
+	for p := range relyPkgs {
+		rpk = append(rpk, p)
+	}
+	sort.Strings(rpk)
+	for _, pkgPath := range rpk {
+		short := shortPkg(pkgPath, w.ModPath)
+		if only != nil && !only(short+".interference") {
+			continue
+		}
+		var offenders []string
+		n := 0
+		for _, k := range keys {
+			if !strings.HasPrefix(k, pkgPath+"::") {
+				continue
+			}
+			fn := w.Funcs[k]
+			if fn.Parent() == nil {
+				continue
+			}
+			sameGoroutine := true
+			for _, pb := range fn.Parent().Blocks {
+				for _, in := range pb.Instrs {
+					mc, ok := in.(*ssa.MakeClosure)
+					if !ok || mc.Fn != fn {
+						continue
+					}
+					for _, ref := range *mc.Referrers() {
+						switch r := ref.(type) {
+						case *ssa.Defer:
+							if r.Call.Value != mc {
+								sameGoroutine = false
+							}
+						case *ssa.Call:
+							if r.Call.Value != mc {
+								sameGoroutine = false
+							}
+						case *ssa.DebugRef:
+						default:
+							sameGoroutine = false
+						}
+					}
+				}
+			}
+			if sameGoroutine {
+				continue
+			}
+			n++
+			for _, b := range fn.Blocks {
+				for _, in := range b.Instrs {
+					if st, ok := in.(*ssa.Store); ok {
+						if _, isFV := st.Addr.(*ssa.FreeVar); isFV {
+							offenders = append(offenders, strings.TrimPrefix(k, pkgPath+"::")+" at "+w.Prog.Fset.Position(st.Pos()).String())
+						}
+					}
+				}
+			}
+		}
+		goal := "true"
+		src := fmt.Sprintf("no closure that may run on another goroutine (%d such closures: go statements, timers, stored function values) assigns a captured variable", n)
+		if len(offenders) > 0 {
+			goal = "false"
+			src += "; OFFENDERS: " + strings.Join(offenders, "; ")
+		}
+		obls = append(obls, &Obligation{Name: short + "/interference[captured]", Fn: short + ".interference", Kind: "scan", Goal: goal, Src: src, Ctx: &FnCtx{W: w, Short: short}})
+	}
 	// globalinit declarations: the package initialiser stores one of the allowed globals into the variable
 	for _, gi := range w.C.GlobalInits {
 		short := shortPkg(gi.Pkg, w.ModPath)
@@ -721,6 +793,12 @@ func (rc *runCtx) dump(fnName, oblPat string) int {
 			fmt.Printf("%s %-80s %s %v %dms -> %s\n", st, o.Name, o.Result.Status, o.Result.Tried, o.Result.Ms, keep)
 			continue
 		}
+		if os.Getenv("VERIF_KEEPQ") != "" {
+			keep := filepath.Join(os.TempDir(), fmt.Sprintf("govc-q-%d.smt2", i))
+			os.WriteFile(keep, []byte(o.query(false)), 0644)
+			fmt.Printf("%s %-80s %s %s %dms -> %s\n", st, o.Name, o.Result.Status, o.Result.Solver, o.Result.Ms, keep)
+			continue
+		}
 		fmt.Printf("%s %-80s %s %dms\n", st, o.Name, o.Result.Status, o.Result.Ms)
 	}
 	return code
@@ -793,6 +871,20 @@ func splitAnd(g string) []string {
 				out = append(out, "(=> "+as[0]+" "+c+")")
 			}
 			return out
+		}
+	}
+	if strings.HasPrefix(g, "(forall ") {
+		// forall x. (A && B)  ==  (forall x. A) && (forall x. B)
+		as := args(g[8 : len(g)-1])
+		if len(as) == 2 && !strings.HasPrefix(as[1], "(! ") {
+			parts := splitAnd(as[1])
+			if len(parts) > 1 {
+				var out []string
+				for _, c := range parts {
+					out = append(out, "(forall "+as[0]+" "+c+")")
+				}
+				return out
+			}
 		}
 	}
 	return []string{g}
